@@ -198,7 +198,7 @@ class World:
             if rm is None:
                 return None
             idx = len(rm.calls)
-            raised = idx in callfault
+            raised = idx in callfault and not rm.spec.get("probe")
             rec = CallRec(rm, idx, args, kwargs, raised, world.opno)
             try:
                 rec.spawner = asyncio.current_task()
